@@ -369,6 +369,11 @@ pub struct AScenario {
 /// World A: two half connections, both directions active, arbitrary faults until
 /// `fault_until_us`, then (optionally) a clean link.
 pub fn world_a_general(property: &str, scenario: &str, seed: u64, run: u64, sc: &AScenario, heal: bool) -> Plan {
+    world_a_general_with(property, scenario, seed, run, sc, heal, &|_| ())
+}
+
+/// The same with a family-specific adjustment of each endpoint's sampled workload.
+pub fn world_a_general_with(property: &str, scenario: &str, seed: u64, run: u64, sc: &AScenario, heal: bool, tweak: &dyn Fn(&mut Workload)) -> Plan {
     let mut r = Rng::keyed(&[seed, crate::rng::str_key(property), crate::rng::str_key(scenario), run]);
     let mut plan = Plan::new(property, scenario, seed, run);
     plan.fate_seed = Some(key(&[seed, run, 0xfa7e]));
@@ -405,6 +410,7 @@ pub fn world_a_general(property: &str, scenario: &str, seed: u64, run: u64, sc: 
         let max_len = ((setup.alloc[1 - ep] + FRAG - 1) / FRAG * FRAG).min(70_000);
         let packets = if ep == 0 || r.chance(0.7) { sc.packets } else { sc.packets / 8 };
         let mut w = Workload::sample(&mut r, packets.max(1), max_len);
+        tweak(&mut w);
         if ep == 0 {
             short_ch = w.short_ch;
             tiny_mode = w.tiny_mode;
